@@ -627,9 +627,11 @@ class DictDeserializer:
                 field_typ = self.get_type(field["type"])
                 dt.add_field(name, field_typ, offset)
         elif kind == "pointer":
-            ptype = self.get_type(t["pointed_type"])
-            dt = DebugPointerType(ptype)
+            # Register the pointer before resolving the pointed type, the
+            # pointed type might be a struct containing this pointer type.
+            dt = DebugPointerType(DebugType())
             self.types[idx] = dt
+            dt.pointed_type = self.get_type(t["pointed_type"])
         elif kind == "array":
             etype = self.get_type(t["element_type"])
             dt = DebugArrayType(etype, t["size"])
